@@ -49,8 +49,14 @@ pub(crate) struct Ghost {
     pub fault_kind: u8,
     pub fault_k: u16,
     pub fault_fired: bool,
-    /// emulated unwinding in progress (A-UNWIND)
-    pub unwinding: bool,
+    /// A-UNWIND: number of emulated panics started / caught by the harness' emulated catch_unwind
+    pub panics: u16,
+    pub caught: u16,
+    pub upgrade_gave_dropped: u16,
+    pub new_in_finalizer_not_marked_finalized: u16,
+    pub trace_after_drop: u16,
+    pub fin_without_feature: u16,
+    pub canary_broken: u16,
     /// per-object actions
     pub fin_act: [Act; MAX_OBJ],
     pub drop_act: [Act; MAX_OBJ],
@@ -84,7 +90,13 @@ impl Ghost {
             fault_kind: 0,
             fault_k: 0,
             fault_fired: false,
-            unwinding: false,
+            panics: 0,
+            caught: 0,
+            upgrade_gave_dropped: 0,
+            new_in_finalizer_not_marked_finalized: 0,
+            trace_after_drop: 0,
+            fin_without_feature: 0,
+            canary_broken: 0,
             fin_act: [Act::Nothing; MAX_OBJ],
             drop_act: [Act::Nothing; MAX_OBJ],
             act_target: [0; MAX_OBJ],
@@ -102,15 +114,34 @@ pub(crate) fn g() -> &'static mut Ghost {
 /// A-UNWIND: is an emulated panic propagating?
 #[inline]
 pub(crate) fn unwinding() -> bool {
-    unsafe { G.unwinding }
+    unsafe { G.panics > G.caught }
 }
 
-/// The emulated `catch_unwind`: returns whether a panic was caught and clears the flag.
+/// A-UNWIND hook protocol: `let m = unwind_mark(); <call that may run user code>; if unwound(m) { return; }`
+#[inline]
+pub(crate) fn unwind_mark() -> u16 {
+    unsafe { G.panics }
+}
+#[inline]
+pub(crate) fn unwound(mark: u16) -> bool {
+    unsafe { G.panics > mark }
+}
+
+/// The emulated `catch_unwind`: returns whether a panic was caught.
 #[inline]
 pub(crate) fn catch() -> bool {
     unsafe {
-        let u = G.unwinding;
-        G.unwinding = false;
+        let u = G.panics > G.caught;
+        G.caught = G.panics;
         u
+    }
+}
+
+/// Start an emulated panic (called by probe callbacks at their fault point).
+#[inline]
+pub(crate) fn start_panic() {
+    unsafe {
+        G.fault_fired = true;
+        G.panics += 1;
     }
 }
